@@ -344,6 +344,14 @@ func (cx *Ctx) keyPrefix(v ssa.Value, fr *frame, depth int, out map[string]bool)
 				return
 			}
 			if fa, ok := x.X.(*ssa.FieldAddr); ok {
+				// a key carried in a field of a small struct (idx.key): the values stored into
+				// that field where the struct is assembled, through parameters if need be
+				if vals := cx.fieldValues(fa.X, fa.Field, fr, 0); len(vals) > 0 {
+					for _, v := range vals {
+						cx.keyPrefix(v.v, v.fr, depth+2, out)
+					}
+					return
+				}
 				out["field:"+fieldName(fa)] = true
 				return
 			}
@@ -724,4 +732,83 @@ func init() {
 		}
 		fmt.Printf("%d prims, %d unresolved prefixes\n", n, bad)
 	}
+}
+
+// fieldValues: the values that field #idx of the struct denoted by base can hold,
+// found at the places the struct is assembled: field stores into a local, a whole
+// value stored into it, the argument bound to a parameter (of this call chain when
+// a frame is given, else at every static call site). nil when some source is not
+// understood. Each value comes with the frame it is to be read in.
+type framedValue struct {
+	v  ssa.Value
+	fr *frame
+}
+
+func (cx *Ctx) fieldValues(base ssa.Value, idx int, fr *frame, depth int) []framedValue {
+	if depth > 6 || base == nil {
+		return nil
+	}
+	switch b := base.(type) {
+	case *ssa.Alloc:
+		var out []framedValue
+		if b.Referrers() == nil {
+			return nil
+		}
+		for _, r := range *b.Referrers() {
+			switch y := r.(type) {
+			case *ssa.FieldAddr:
+				if y.Field != idx || y.Referrers() == nil {
+					continue
+				}
+				for _, r2 := range *y.Referrers() {
+					if st, ok := r2.(*ssa.Store); ok && st.Addr == y {
+						out = append(out, framedValue{st.Val, fr})
+					}
+				}
+			case *ssa.Store:
+				if y.Addr == b {
+					vs := cx.fieldValues(y.Val, idx, fr, depth+1)
+					if vs == nil {
+						return nil
+					}
+					out = append(out, vs...)
+				}
+			}
+		}
+		return out
+	case *ssa.UnOp:
+		if b.Op == token.MUL {
+			return cx.fieldValues(b.X, idx, fr, depth+1)
+		}
+	case *ssa.Parameter:
+		fn := b.Parent()
+		pi := -1
+		for i, p := range fn.Params {
+			if p == b {
+				pi = i
+			}
+		}
+		if fr != nil && fr.call != nil && fr.call.Common().StaticCallee() == fn && pi >= 0 && pi < len(fr.call.Common().Args) {
+			return cx.fieldValues(fr.call.Common().Args[pi], idx, fr.parent, depth+1)
+		}
+		var out []framedValue
+		n := 0
+		for _, cs := range cx.CallersOf(fn) {
+			cc := cs.Site.Common()
+			if cc.IsInvoke() || cc.StaticCallee() != fn || pi < 0 || pi >= len(cc.Args) {
+				return nil
+			}
+			n++
+			vs := cx.fieldValues(cc.Args[pi], idx, nil, depth+1)
+			if vs == nil {
+				return nil
+			}
+			out = append(out, vs...)
+		}
+		if n == 0 {
+			return nil
+		}
+		return out
+	}
+	return nil
 }
